@@ -89,7 +89,8 @@ def dumped_payload(repo, overrides=None):
     tables = {p_: collections.defaultdict(list, {f"@{p_}@": [(1, 2), (1, 2)]}) for p_ in params}
     mark.update({p_: f"@{p_}@" for p_ in params})
     got = []
-    io = {"open": lambda *a, **k: Obj(kind="text", name=a[0]), "gzip.open": lambda *a, **k: Obj(kind="gz", name=a[0]), "print": lambda *a, **k: None,
+    io = {"open": lambda *a, **k: Obj(kind="text", name=a[0], write=lambda t: None), "gzip.open": lambda *a, **k: Obj(kind="gz", name=a[0], write=lambda t: None),
+          "print": lambda *a, **k: None,
           "pickle.dump": lambda o, fd, *a, **k: got.append(o), "Counter": collections.Counter, "collections.Counter": collections.Counter}
     lift_module_helpers(repo.mod("sam").tree, io, None, {}, {})
     Lifted(wf, funcs=io)(me, "dbg.G", *[tables[p_] for p_ in params])
@@ -420,7 +421,8 @@ def r7(repo, res):
         def pr(*a, sep=" ", end="\n", file=None):
             marker.append(sep.join(str(x) for x in a))
 
-        io = {"open": lambda *a, **k: Obj(kind="text"), "gzip.open": lambda *a, **k: Obj(kind="gz"), "print": pr,
+        # the genome marker may be written with print(..., file=) or with write()
+        io = {"open": lambda *a, **k: Obj(kind="text", write=lambda t: marker.append(str(t))), "gzip.open": lambda *a, **k: Obj(kind="gz", write=lambda t: None), "print": pr,
               "pickle.dump": lambda o, fd: store.__setitem__("o", copy.deepcopy(o)), "pickle.load": lambda fd: copy.deepcopy(store["o"]),
               "Counter": collections.Counter, "collections.Counter": collections.Counter, "os.path.abspath": lambda q: q}
         from sa.fold import lift_module_helpers
@@ -539,6 +541,9 @@ def r8(repo, res):
 
         def read(self):
             return "".join(self.text).encode("utf-8")
+
+        def write(self, t):
+            self.text.append(str(t))
 
     def opn(name, mode="r", *a, **k):
         if isinstance(name, Handle):
